@@ -564,6 +564,22 @@ func (s *sim) runChain(sp scanSpec, w *world, tables, collKeys []string, interf 
 	if s.fatal() {
 		return
 	}
+	if sp.keyScan() && s.cfg.parts > 1 {
+		// the server concatenates the partitions' answers in map order: judge
+		// and report the per-partition subsequences, in partition order
+		by := make([][]string, s.cfg.parts+1)
+		for _, e := range got {
+			p := s.partOf(sp.table + ":" + e)
+			if p < 0 {
+				p = s.cfg.parts
+			}
+			by[p] = append(by[p], e)
+		}
+		got = nil
+		for _, l := range by {
+			got = append(got, l...)
+		}
+	}
 	if len(s.scanSample) < 6 {
 		s.scanSample = append(s.scanSample, fmt.Sprintf("%s: %d elements in scope, %d pages, %d returned", sp, len(initial), pages, len(got)))
 	}
